@@ -4,7 +4,7 @@
      Results.DecodeResult, Results.decodeAuto, ResultColumn / AutoResult      /repo/proto/results.go, block.go
      the Inferable hook of every column kind: ColEnum.Infer/parse, ColDateTime.Infer,
      ColDateTime64.Infer, ColInterval.Infer, ColArr.Infer, ColNullable.Infer, ColLowCardinality.Infer,
-     ColMap.Infer (splitTypeArgs), ColTuple.Infer, ColNamed.Infer, ColAuto.Infer (as a target)   /repo/proto/col_*.go
+     ColMap.Infer, ColTuple.Infer (splitTypeArgs), ColNamed.Infer (CutPrefix), ColAuto.Infer (as a target)   /repo/proto/col_*.go
 
    model/Block.v has the same loop as a parser that returns the targets on success only and is
    parametrised by [conflicts], [infer_target], [infer_auto]; this file gives the three executable
@@ -67,6 +67,10 @@ Fixpoint split_top (m : smode) (depth : Z) (cur : bytes) (s : bytes) : list byte
     end
   end.
 Definition split_type_args (s : bytes) : list bytes := split_top MNormal 0 [] s.
+
+(* strings.CutPrefix *)
+Definition cut_prefix (p s : bytes) : option bytes :=
+  if has_prefix p s then Some (skipn (length p) s) else None.
 
 (* width of the columns ColAuto creates with new(ColX) *)
 Definition gen_width (go : bytes) : option nat :=
@@ -229,21 +233,38 @@ Section Res.
       | Err _ => (t, IErr)
       | Crash _ => (t, ICrash)
       end
-    | TTuple ts =>                                                       (* ColTuple.Infer: every element gets the whole string *)
-      let '(ts', o) :=
-        (fix go (ts : list ty) : list ty * iout :=
-           match ts with
-           | [] => ([], IOk)
-           | t0 :: r =>
-             let '(t0', o) := if inferable_ty t0 then infer_st t0 s else (t0, IOk) in
-             match o with
-             | IOk => let '(r', o') := go r in (t0' :: r', o')
-             | _ => (t0' :: r, o)
-             end
-           end) ts in
-      (TTuple ts', o)
-    | TNamed n d =>                                                      (* ColNamed.Infer *)
-      if inferable_ty d then let '(d', o) := infer_st d s in (TNamed n d', o) else (t, IOk)
+    | TTuple ts =>                                                       (* ColTuple.Infer *)
+      (* the arguments are split, and their number checked, when the loop meets the first Inferable element: nothing
+         has been touched before that, so this is the same as doing it up front when there is one *)
+      if existsb inferable_ty ts then
+        match elem_r s with
+        | Ok e _ =>
+          let args := split_type_args e in
+          if negb (length args =? length ts)%nat then (t, IErr)             (* the type cannot be adopted *)
+          else
+            let '(ts', o) :=
+              (fix go (ts : list ty) (args : list bytes) : list ty * iout :=
+                 match ts, args with
+                 | t0 :: r, a :: ar =>                                    (* element i gets ITS argument, trimmed *)
+                   let '(t0', o) := if inferable_ty t0 then infer_st t0 (trim_space a) else (t0, IOk) in
+                   match o with
+                   | IOk => let '(r', o') := go r ar in (t0' :: r', o')
+                   | _ => (t0' :: r, o)
+                   end
+                 | _, _ => (ts, IOk)
+                 end) ts args in
+            (TTuple ts', o)
+        | Err _ => (t, IErr)
+        | Crash _ => (t, ICrash)
+        end
+      else (t, IOk)
+    | TNamed n d =>                                                      (* ColNamed.Infer: an element of a named tuple is "name type" *)
+      if inferable_ty d then
+        match cut_prefix (n ++ [32]) s with
+        | Some e => let '(d', o) := infer_st d e in (TNamed n d', o)
+        | None => (t, IErr)                                              (* not an element of this name *)
+        end
+      else (t, IOk)
     | _ => (t, IOk)
     end.
 
